@@ -25,8 +25,8 @@ TEXT = {
          "which orphan an exception names is not observed."),
  "C10": ("4.10", "Theorems: ungroup∘group restores the surviving notes (see evidence for the proved range); tie: C09 streams x ungroup policies, hand-built sequences with a note inside a hold.",
          "heapq with distinct keys modelled as sorted insertion."),
- "C11": ("4.11", "Theorems (all timing data in the domain, all beats, all tags): the engine model equals the declarative timeline (tick sum outside the warp union + pauses passed), monotone, offset shift, bpm_at, redundant BPM changes change nothing. Tie: impl floats vs exact rationals within 1e-9 s on grid placements (exhaustive in thorough), random and corpus timing data.",
-         "IEEE-754 arithmetic not modelled (measured deviation ≤ 1e-9 s); bisect/heapq.merge modelled verbatim."),
+ "C11": ("4.11", "Theorems (all timing data in the domain, all beats, all tags): the engine model equals the declarative timeline (tick sum outside the warp union + pauses passed), monotone, offset shift, bpm_at, redundant BPM changes change nothing; under floating-point arithmetic (every float operation a rounding satisfying the standard model) the engine stays within the computable bound errTimeAt of that timeline (C11F.time_error). The engine's functions are also translated from their Python source on every run and proved equal to the model (DESIGN §11). Tie: impl floats vs exact rationals within 1e-9 s and, exactly, within the proved bound, on grid placements (exhaustive in thorough), random and corpus timing data, and from simfile text (STOPS / FREEZES / SSC chart timing).",
+         "IEEE-754: proved under the standard model with u = 2^-53 (a hypothesis about CPython's doubles, checked on every run); bisect/heapq.merge modelled verbatim."),
  "C12": ("4.12", "Theorems about the repaired beat_at (search on state times) and the counter-example for the old algorithm; tie: symbolic boundary queries, pauses, dyadic times; direct: inversion, pauses, closeness, WARP tag, monotonicity, independence on the impl.",
          "float rounding in beats_until not modelled; half-tick ties reported separately."),
  "C13": ("4.13", "Theorems: hittable = 'inside the warp union and no pause on that beat'; time_notes = the documented map. Tie: every tick around every event; generated routine/keysounded note data and corpus charts x 3 options.",
@@ -60,7 +60,7 @@ for i in range(1, 21):
             "engine": "lean4-model+correspondence",
             "level_claimed": {"category": "proof", "text": text, "design_ref": "DESIGN.md §" + ref},
             "level_note": note or "Lean kernel; axioms ⊆ {propext, Classical.choice, Quot.sound}; gen_tables.py; the correspondence harness; CPython/msdparser/PyFilesystem as executed.",
-            "technique": "Lean 4 theorems about an executable model + differential correspondence with the Python implementation",
+            "technique": "Lean 4 theorems about an executable model; the model is tied to /repo by generated tables, by functions translated from the Python source on every run and proved equal to the model (DESIGN §11), and by differential correspondence with the Python implementation",
         })
     else:
         na.append({"property_id": pid, "reason": "model and correspondence check exist (./check %s runs them) but no property theorem has been merged yet, so no proof-level claim is made in this commit (DESIGN.md §4.%d)" % (pid, i)})
@@ -71,7 +71,7 @@ m = {
            "baseline_off_cmd": "cd /repo && /venv/bin/python -m pytest -ra -q -p no:cacheprovider --timeout=900 --continue-on-collection-errors",
            "source_commits": [], "add_only": True},
  "engines": [{"name": "lean4-model+correspondence", "path": "lean/ + harness/", "serves_properties": [c["property_id"] for c in checks],
-              "kind_free_text": "Lean 4.33 project (generated tables, hand-written executable models, specs, theorems) tied to /repo by harness/gen_tables.py and by differential runs of the model driver against the Python implementation"}],
+              "kind_free_text": "Lean 4.33 project (generated tables, generated function definitions, hand-written executable models, specs, theorems) tied to /repo by harness/gen_tables.py, harness/gen_code.py (translated functions proved equal to the model) and by differential runs of the model driver against the Python implementation"}],
  "checks": checks,
  "not_applicable": na,
  "notes": "Fix commits in /repo and findings: known_findings.json. Approach: DESIGN.md.",
